@@ -59,7 +59,7 @@ class Ctl:
         self.fn_ids = {}
         self.progress_clock = 0
         self.extra = {}
-        self.stall_timeout = 20
+        self.stall_timeout = 30
         self.crash = None
         self.iofault = None      # k: the k-th HDF5 operation of the run fails with OSError (disk full)
         self.h5count = 0
